@@ -60,11 +60,29 @@ ResolveDirect(j) == /\ Len(hist) < MaxOps
                                              out |-> <<[k |-> "res", v |-> ResolveText(Top(stack), Scens[sc].refs[j])]>>,
                                              status |-> "done", restored |-> stack = <<Base>>])
                     /\ UNCHANGED <<sc, stack, mode>>
+\* the public context managers: `with resolver.in_scope(scope): resolver.resolve(ref)` and
+\* `with resolver.resolving(ref): resolver.resolve("#")` -- the body may raise; the scope is popped in a finally
+ScopeArg == <<115, 117, 98, 47, 100, 105, 114, 47>>        \* "sub/dir/"
+InScopeOp(j) == /\ Len(hist) < MaxOps
+                /\ hist' = Append(hist, [op |-> "inscope", i |-> j, k |-> 0,
+                                         out |-> <<[k |-> "res", v |-> ResolveText(ResolveText(Top(stack), ScopeArg), Scens[sc].refs[j])]>>,
+                                         status |-> "done", restored |-> stack = <<Base>>])
+                /\ UNCHANGED <<sc, stack, mode>>
+ResolvingOp(j) == /\ Len(hist) < MaxOps
+                  /\ LET u == ResolveText(Top(stack), Scens[sc].refs[j])
+                         \* whether the reference resolves at all (measured on a fresh resolver, per handler mode): if not,
+                         \* resolving() raises before the body runs
+                         ok == IF mode = "fail" THEN Scens[sc].refokfail[j] ELSE Scens[sc].refok[j] IN
+                     hist' = Append(hist, [op |-> "resolving", i |-> j, k |-> 0,
+                                           out |-> IF ok THEN <<[k |-> "res", v |-> u], [k |-> "res", v |-> ResolveText(u, <<35>>)]>>
+                                                   ELSE <<[k |-> "res", v |-> u]>>,
+                                           status |-> "done", restored |-> stack = <<Base>>])
+                  /\ UNCHANGED <<sc, stack, mode>>
 Toggle == /\ mode = "fail" /\ Len(hist) < MaxOps /\ mode' = "ok"
           /\ hist' = Append(hist, [op |-> "toggle", i |-> 0, k |-> 0, out |-> <<>>, status |-> "done", restored |-> stack = <<Base>>])
           /\ UNCHANGED <<sc, stack>>
 Next == \/ \E i \in 1 .. NInst : Exhaust(i) \/ First(i) \/ TakeClose(i, 2)
-        \/ \E j \in DOMAIN Scens[sc].refs : ResolveDirect(j)
+        \/ \E j \in DOMAIN Scens[sc].refs : ResolveDirect(j) \/ InScopeOp(j) \/ ResolvingOp(j)
         \/ Toggle
 Spec == Init /\ [][Next]_vars
 
